@@ -96,10 +96,74 @@ type c25Info struct {
 	Live     int
 }
 
+// c25SoloSpec asks a fresh process for the digests of one instance run alone.
+type c25SoloSpec struct {
+	Inst   sysCase `json:"instance"`
+	Slices []int   `json:"slices"`
+}
+
+func c25SoloDigests(sp c25SoloSpec) []string {
+	in := c25New(sp.Inst)
+	out := make([]string, 0, len(sp.Slices))
+	for _, n := range sp.Slices {
+		in.run(n)
+		out = append(out, sysDigest(in.snap()))
+	}
+	return out
+}
+
+// TestC25Solo is the child side: one instance, alone in a pristine process.
+func TestC25Solo(t *testing.T) {
+	path := os.Getenv("VERIF_C25_SOLO")
+	if path == "" {
+		t.Skip("not a child")
+	}
+	b, err := os.ReadFile(path)
+	if err != nil {
+		t.Fatal(err)
+	}
+	var sp c25SoloSpec
+	if err := json.Unmarshal(b, &sp); err != nil {
+		t.Fatal(err)
+	}
+	sysChildOut(path, c25SoloDigests(sp))
+}
+
 func c25Run(c c25Case) (info c25Info, sig string, err error) {
 	defer vf.Recover(&sig, &err)
 	n := len(c.Insts)
-	// solo: each instance alone, snapshots at the cumulative cycle counts of its slices
+	// The reference: each instance alone in a process of its own (so that state cached per process by an
+	// earlier instance cannot leak into it), digests at the cumulative cycle counts of its slices.
+	pristine := make([][]string, n)
+	perr := make([]error, n)
+	var wg sync.WaitGroup
+	for i := 0; i < n; i++ {
+		sp := c25SoloSpec{Inst: c.Insts[i]}
+		for _, sl := range c.Sched {
+			if sl.Inst == i {
+				sp.Slices = append(sp.Slices, sl.Cycles)
+			}
+		}
+		if len(sp.Slices) == 0 {
+			continue
+		}
+		if os.Getenv("VERIF_C25_INPROC") != "" {
+			pristine[i] = c25SoloDigests(sp)
+			continue
+		}
+		wg.Add(1)
+		go func(i int, sp c25SoloSpec) {
+			defer wg.Done()
+			perr[i] = sysSpawn("TestC25Solo", "VERIF_C25_SOLO", sp, &pristine[i])
+		}(i, sp)
+	}
+	wg.Wait()
+	for i := range perr {
+		if perr[i] != nil {
+			return info, "", nil // the solo run itself did not survive (C11's business): nothing to compare
+		}
+	}
+	// a solo run in this process as well, only to name the difference when there is one
 	solo := make([][][]sysSection, n)
 	for i := 0; i < n; i++ {
 		in := c25New(c.Insts[i])
@@ -132,15 +196,20 @@ func c25Run(c c25Case) (info c25Info, sig string, err error) {
 			last = i
 		}
 		insts[i].run(sl.Cycles)
-		if d := sysDiff(solo[i][seen[i]], insts[i].snap()); d != "" {
-			return info, "instance-differs-from-solo", fmt.Errorf("instance %d of %d (created %v) after schedule step %d (%d cycles of its own): state differs from the same instance run alone: %s [alone vs together]", i, n, c.Order, k, insts[i].cycles, d)
+		snap := insts[i].snap()
+		if sysDigest(snap) != pristine[i][seen[i]] {
+			d := sysDiff(solo[i][seen[i]], snap)
+			if d == "" {
+				d = "a solo run made in this process, after other instances had existed in it, deviates in the same way: state cached per process"
+			}
+			return info, "instance-differs-from-solo", fmt.Errorf("instance %d of %d (created %v) after schedule step %d (%d cycles of its own): state differs from the same instance run alone in a process of its own: %s [alone vs together]", i, n, c.Order, k, insts[i].cycles, d)
 		}
 		seen[i]++
 		// the instances that did not run must not have moved either
 		for j := range insts {
 			if j != i && seen[j] > 0 {
-				if d := sysDiff(solo[j][seen[j]-1], insts[j].snap()); d != "" {
-					return info, "idle-instance-changed", fmt.Errorf("instance %d changed while only instance %d was running (schedule step %d): %s [before vs after]", j, i, k, d)
+				if sysDigest(insts[j].snap()) != pristine[j][seen[j]-1] {
+					return info, "idle-instance-changed", fmt.Errorf("instance %d changed while only instance %d was running (schedule step %d): %s [before vs after]", j, i, k, sysDiff(solo[j][seen[j]-1], insts[j].snap()))
 				}
 			}
 		}
@@ -185,7 +254,13 @@ func c25RunFrames(c c25Frames) (sig string, err error) {
 		}
 		cas.Frames = ok
 		cases[i] = cas
-		want[i] = sysRunGB(cas, nil)
+		if os.Getenv("VERIF_RACE") != "" {
+			want[i] = sysRunGB(cas, nil)
+		} else if w, werr := sysChild(cas); werr == nil {
+			want[i] = w // alone in a process of its own
+		} else {
+			return "", nil
+		}
 		if want[i].Err != "" {
 			return "", nil
 		}
@@ -337,7 +412,7 @@ func TestC25(t *testing.T) {
 	c.RunReplays()
 	roms := c24Corpus()
 
-	c.Rapid("interleave", 2400, 60000, func(rt *rapid.T) {
+	c.Rapid("interleave", 1200, 40000, func(rt *rapid.T) {
 		n := rapid.IntRange(2, 3).Draw(rt, "n")
 		var cas c25Case
 		for i := 0; i < n; i++ {
@@ -361,7 +436,7 @@ func TestC25(t *testing.T) {
 		}
 	})
 
-	c.Rapid("frames", 320, 8000, func(rt *rapid.T) {
+	c.Rapid("frames", 192, 6000, func(rt *rapid.T) {
 		n := rapid.IntRange(2, 3).Draw(rt, "n")
 		cas := c25Frames{Concurrent: rapid.Bool().Draw(rt, "concurrent")}
 		for i := 0; i < n; i++ {
